@@ -102,6 +102,11 @@ CHECKS = {
         "SyntaxError/SemanticError exactly when due, answers are stable across a call sequence (parse with skip_check, then check/parse again), repair returns valid inputs unchanged.",
    note="Trusted: checks/refsem.py. [decoder]. Outside: repair/mutate of invalid inputs (they call the solver loop and hit a TypeError of the installed `returns` library on the unchanged tree).",
    design="§3 C18"),
+ "C13": dict(level="other", technique="CrossHair (z3): solver-driven exhaustive enumeration of bounded host trees; real insert_tree for every portfolio tree and every combination of insertion methods",
+   text=BOUNDED + "Every host tree decodable from <= 4/6 choices over 2 grammars (assignment language, XML-like self embedding) x 3 insertable trees per nonterminal x all 7 method combinations: each result is a valid tree with the host's root, "
+        "contains every original node exactly once with its label, contains the inserted tree (its open leaves may be filled), and is internally consistent.",
+   note="Trusted: validator / traversal in the harness. [decoder]. Outside: larger trees, insert_trees.",
+   design="§3 C13"),
 }
 NOT_APPLICABLE = {
  "C21": "needs end-to-end solve() on the shipped formalizations plus external validators (docutils, XML parser): the solver loop is a heap algorithm around Z3 calls that no engine here can encode, and the validators are not solver objects",
